@@ -79,11 +79,15 @@ type endpoint struct {
 
 // Network is the per-run network state; the harness creates one per run.
 type Network struct {
-	eps      map[string]*endpoint
-	Conns    []*ServerSide
-	DialLog  []string
-	dialing  int
-	DialFail int // remaining dials that fail regardless of endpoint (all_servers_down)
+	eps          map[string]*endpoint
+	Conns        []*ServerSide
+	DialLog      []string
+	dialing      int
+	DialFail     int   // remaining dials that fail regardless of endpoint (all_servers_down)
+	lastDialDone int64 // virtual time at which the most recent successful dial completes / completed
+	// OnDial is called when a dial starts (harness hook: lets a workload place activity
+	// right at the moment a connection attempt is in flight).
+	OnDial func(address string)
 }
 
 var cur *Network
@@ -167,6 +171,9 @@ func DialTimeout(network, address string, timeout time.Duration) (net.Conn, erro
 	}
 	defer func() { n.dialing-- }()
 	n.DialLog = append(n.DialLog, address)
+	if n.OnDial != nil {
+		n.OnDial(address)
+	}
 	ep := n.eps[address]
 	if n.DialFail > 0 {
 		n.DialFail--
@@ -187,7 +194,21 @@ func DialTimeout(network, address string, timeout time.Duration) (net.Conn, erro
 		simrt.Sleep(timeout)
 		return nil, opErr("dial", address, timeoutErr{})
 	}
-	latency()
+	// completion time of a successful dial: usually an independent seeded latency; when
+	// another dial is in flight or has just completed, sometimes land within a few
+	// scheduling quanta of its completion (near-simultaneous completions of competing
+	// connection attempts are where reconnect logic is fragile)
+	if n.lastDialDone > 0 && simrt.ChooseF(3) == 1 {
+		q := simrt.QuantumNs()
+		target := n.lastDialDone + int64(simrt.ChooseF(80)-20)*q
+		if d := target - simrt.Elapsed(); d > 0 {
+			simrt.Sleep(time.Duration(d))
+		}
+		simrt.Probe("dial_completion_near_another")
+	} else {
+		latency()
+	}
+	n.lastDialDone = simrt.Elapsed()
 	if ep.mode != Up { // changed while we were connecting
 		simrt.Fault("dial_refused")
 		return nil, opErr("dial", address, syscall.ECONNREFUSED)
